@@ -17,6 +17,7 @@ from . import common
 
 SHAPE_WHAT = {
     "projection-callee": "a call whose callee is a record field (`r.f x`, `module.f x`)",
+    "ident-callee": "a direct call `f x`",
     "lambda-callee": "a call whose callee is a lambda (`(\\x -> ..) y`)",
     "match-callee": "a call whose callee is chosen by `if`/`match`",
     "let-callee": "a call whose callee is a `let` expression",
@@ -31,6 +32,9 @@ def shape_of(diag):
     m = re.match(r"reject (drop|drop-field|drop-match):(?:\d+:)?([a-z-]+)$", diag)
     if m:
         return "opt-drops-call", m.group(2)
+    m = re.match(r"reject drop-rec-value:([a-z-]+)$", diag)
+    if m:
+        return "opt-drops-rec-value", m.group(1)
     m = re.match(r"reject (.*)$", diag)
     return "opt-rewrite", (m.group(1) if m else diag).replace(" ", "_")
 
@@ -65,7 +69,7 @@ def tie(ctx, tag="tie", tier=None, extra=()):
     stats = json.load(open(os.path.join(out_dir, "stats.json")))
     behav = [json.loads(l) for l in common.read_lines(os.path.join(out_dir, "behav.jsonl")) if l.strip()]
     res = {"cases": cases, "stats": stats, "behav": behav, "rejected": [], "eval_diff": [], "n": len(cases), "diag": {},
-           "complete": len(mo) == len(cases) == len(io)}
+           "complete": len(mo) == len(cases) == len(io), "rewrites": {}}
     for i, c in enumerate(cases):
         m = mo[i] if i < len(mo) else "<missing>"
         im = io[i] if i < len(io) else "<missing>"
@@ -73,6 +77,11 @@ def tie(ctx, tag="tie", tier=None, extra=()):
             res["diag"][c["name"]] = m
             if m != im:
                 res["rejected"].append((c, m))
+        elif c["kind"] == "C":
+            # which rewrites the accepted pair of a std module uses (evidence)
+            mm = re.match(r"counts R1=(\d+) R2=(\d+) R3=(\d+) R4=(\d+)$", m)
+            if mm:
+                res["rewrites"][c["name"]] = [int(x) for x in mm.groups()]
         elif m != im:
             res["eval_diff"].append((c, m, im))
     return res
@@ -84,7 +93,10 @@ def report(ctx, res, seen_keys):
     by_key = {}
     for b in res["behav"]:
         diag = res["diag"].get(b["shrunk_name"]) or res["diag"].get(b["name"]) or "accept"
-        kind, shape = shape_of(diag) if diag != "accept" else ("opt-behaviour-unexplained", "accepted-by-valid_opt")
+        if b.get("kind") == "debug-info":
+            kind, shape, diag = "debug-info-changes-behaviour", "emit_debug_info", "n/a"
+        else:
+            kind, shape = shape_of(diag) if diag != "accept" else ("opt-behaviour-unexplained", "accepted-by-valid_opt")
         key = "%s:%s" % (kind, shape)
         witnessed.add(shape)
         cur = by_key.get(key)
@@ -94,9 +106,16 @@ def report(ctx, res, seen_keys):
         if key in seen_keys:
             continue
         seen_keys.add(key)
-        what = ("optimisation changes behaviour: with Settings::optimize on, a binding whose result is unused is dropped "
-                "although it contains %s; unoptimised run: %s, optimised run: %s"
-                % (SHAPE_WHAT.get(shape, shape), b["shrunk_off"], b["shrunk_on"]))
+        if kind == "debug-info-changes-behaviour":
+            what = "Settings::emit_debug_info changes what a program does: %s versus %s" % (b["shrunk_off"], b["shrunk_on"])
+        elif kind == "opt-drops-rec-value":
+            what = ("optimisation changes behaviour: an unused recursive value binding (`rec let r = { .. }`) is dropped although "
+                    "constructing it contains %s; unoptimised run: %s, optimised run: %s"
+                    % (SHAPE_WHAT.get(shape, shape), b["shrunk_off"], b["shrunk_on"]))
+        else:
+            what = ("optimisation changes behaviour: with Settings::optimize on, a binding whose result is unused is dropped "
+                    "although it contains %s; unoptimised run: %s, optimised run: %s"
+                    % (SHAPE_WHAT.get(shape, shape), b["shrunk_off"], b["shrunk_on"]))
         ctx.violation(key, what, case={"source": b["shrunk_source"]}, expected=b["shrunk_off"], observed=b["shrunk_on"],
                       extra={"valid_opt": diag, "original_case": b["name"], "original_source": b["source"],
                              "rule": "dead_code.rs DepGraph: only Call(Ident ..) marks the enclosing binding as used"})
@@ -127,8 +146,10 @@ def run(ctx):
         "%d runs (optimize off and on) reproduced by eval_core on the IR, %d disagreements" % (nE, len(res["eval_diff"]))))
     ctx.obligations.append(common.Obligation(
         "correspondence:optimize-on-off", "correspondence", not res["behav"],
-        "%d programs run with optimize off and on, %d behavioural differences (%d permitted arithmetic differences)" % (
-            st["programs"], len(res["behav"]), st["hist"].get("behaviour:permitted-arith-difference", 0))))
+        "%d programs run with Settings::optimize off/on x emit_debug_info on/off (4 VMs), %d behavioural differences "
+        "(%d permitted arithmetic differences, %d programs with identical outcomes under both debug-info settings)" % (
+            st["programs"], len(res["behav"]), st["hist"].get("behaviour:permitted-arith-difference", 0),
+            st["hist"].get("debug-info:same-outcome", 0))))
     ctx.obligations.append(common.Obligation(
         "correspondence:pipeline-ir", "correspondence", not st["pipeline_mismatch"],
         "the validated IR pair equals the pipeline's core_expr with Settings::optimize off/on; mismatches: %s" % (
@@ -144,6 +165,17 @@ def run(ctx):
     cov["ir_nodes"] = st["ir_nodes"]
     cov["std_modules_not_compiled"] = st["skipped"][:10]
     cov["exhaustive"] = False
+    # the validator is exercised by real optimisations: rewrites used by the accepted std / tests pairs
+    tot = [0, 0, 0, 0]
+    for v in res["rewrites"].values():
+        tot = [a + b for a, b in zip(tot, v)]
+    cov["std_rewrite_histogram"] = {
+        "R1_dead_binding": tot[0], "R2_dead_rec_member": tot[1], "R3_unnecessary_allocation": tot[2],
+        "R4_dead_record_match": tot[3], "modules": len(res["rewrites"]),
+        "modules_using_some_rewrite": sum(1 for v in res["rewrites"].values() if any(v)),
+        "top_modules": sorted(((k, v) for k, v in res["rewrites"].items()), key=lambda kv: -sum(kv[1]))[:8],
+    }
+    cov["rec_value_groups"] = sum(1 for c in res["cases"] if c["kind"] == "V" and "rec let" in c["source"])
     samples = []
     for i in (0, 3, len(res["cases"]) // 2, len(res["cases"]) - 1):
         if 0 <= i < len(res["cases"]):
@@ -155,8 +187,10 @@ def run(ctx):
     ctx.trusted.append("coq/extract/c04/driver.ml: s-expression reader, value printer, diagnosis of rejections (labels only)")
     ctx.assumptions.append("EStuck (unbound variable, applying a non-function, ...) is what type-correct programs never reach; "
                            "the theorem lets the optimised program do anything once the unoptimised one is stuck")
-    ctx.assumptions.append("recursive value bindings (a `rec` member without parameters) are not evaluated by the model "
-                           "(EStuck); they are validated structurally")
+    ctx.assumptions.append("recursive value bindings (a `rec` member without parameters) are evaluated once when the group is made "
+                           "(effects and failures happen there) and unfolded on demand afterwards; a member that is called or "
+                           "inspected by a later member while the group is being made must already be initialised, as gluon's "
+                           "recursion check demands")
     ctx.assumptions.append("float arithmetic is a parameter of the evaluator (the theorem holds for every interpretation)")
     ctx.assumptions.append("the inliner is compiled out (const INLINE = false, optimize.rs:307); valid_opt rejects its rewrites")
 
@@ -179,6 +213,16 @@ def run(ctx):
             for k in list(unexplained):
                 if k[1] in witnessed:
                     del unexplained[k]
+    # every rejection ends in a behavioural witness of its rewrite or in no-failing-input-found
+    acct = {}
+    for (c, m) in res["rejected"]:
+        kind, shape = shape_of(m)
+        a = acct.setdefault("%s:%s" % (kind, shape), {"rejected_pairs": 0, "resolution": None, "examples": []})
+        a["rejected_pairs"] += 1
+        if len(a["examples"]) < 3:
+            a["examples"].append(c["name"])
+        a["resolution"] = "behavioural witness reported" if shape in witnessed else "no-failing-input-found"
+    cov["rejections_by_rewrite"] = acct
     for (kind, shape), names in sorted(unexplained.items()):
         ctx.violation("obligation:valid_opt:%s:%s" % (kind, shape),
                       "valid_opt rejects the optimiser's output (%s) for %d IR pair(s), e.g. %s; no program with a different "
